@@ -148,11 +148,53 @@ Proof.
   destruct rest as [|nsort rest]; [discriminate|].
   destruct (zext_amount b1) as [z1|]; [|discriminate].
   destruct (sexp_eqb n n1); [injection HR as <-; destruct Hin|].
+  match type of HR with (if ?c then _ else _) = _ => destruct c end; [injection HR as <-; destruct Hin|].
   destruct (zext_amount b2) as [z2|]; [|discriminate].
   destruct (last_child b2) as [dec|] eqn:ELC; [|discriminate].
   injection HR as <-. destruct Hin as [<- | []].
   exists h, n1, n2, nsort, rest, n, b2, (z1 + z2)%Z, dec. repeat split; assumption.
 Qed.
+
+(* the inner definition (the one node[-1][-1] names) refers to itself, directly or not: nothing is proposed.
+   First form: whenever the mutator answers at all (does not raise); second form: with the guards passed spelled out. *)
+Theorem rw_bv_merge_bw_skips_recursive_proof gs defs here e n l :
+  rw_bv_merge_bw gs defs here e = Some l ->
+  last_of_last e = LLnode n ->
+  (match n with L s => is_recursive defs s | T (L h :: _) => is_recursive defs h | _ => false end) = true ->
+  l = [].
+Proof.
+  unfold rw_bv_merge_bw. intros HR HLL Hrec.
+  destruct (is_op e "define-fun"); [|now injection HR as <-].
+  destruct e as [s|[|h [|n1 [|n2 rest]]]]; try discriminate.
+  destruct (negb (Nat.eqb (len n2) 0)); [now injection HR as <-|].
+  destruct (gs n1) as [so|]; [|now injection HR as <-].
+  destruct (negb (is_bv_sort so)); [now injection HR as <-|].
+  destruct (zext_def defs n1) as [[b1|]|]; try discriminate; [|now injection HR as <-].
+  rewrite HLL in HR.
+  destruct (zext_def defs n) as [[b2|]|]; try discriminate; [|now injection HR as <-].
+  destruct rest as [|nsort rest]; [discriminate|].
+  destruct (zext_amount b1) as [z1|]; [|discriminate].
+  destruct (sexp_eqb n n1); [now injection HR as <-|].
+  rewrite Hrec in HR. now injection HR as <-.
+Qed.
+
+Theorem rw_bv_merge_bw_recursive_guard_proof gs defs here h n1 n2 nsort rest so b1 b2 z1 n :
+  let e := T (h :: n1 :: n2 :: nsort :: rest) in
+  is_op e "define-fun" = true -> len n2 = 0%nat -> gs n1 = Some so -> is_bv_sort so = true ->
+  zext_def defs n1 = Some (Some b1) -> last_of_last e = LLnode n -> zext_def defs n = Some (Some b2) ->
+  zext_amount b1 = Some z1 ->
+  (match n with L s => is_recursive defs s | T (L h :: _) => is_recursive defs h | _ => false end) = true ->
+  rw_bv_merge_bw gs defs here e = Some [].
+Proof.
+  intros e Hop Hlen Hgs Hbv Hz1 HLL Hz2 Hza Hrec. unfold rw_bv_merge_bw. rewrite Hop. unfold e in *.
+  rewrite Hlen, Hgs, Hbv, Hz1, HLL, Hz2, Hza, Hrec. cbn [Nat.eqb negb].
+  now destruct (sexp_eqb n n1).
+Qed.
+
+(* the case of the task: the inner definition is named by a leaf *)
+Corollary rw_bv_merge_bw_skips_recursive_leaf_proof gs defs here e s l :
+  rw_bv_merge_bw gs defs here e = Some l -> last_of_last e = LLnode (L s) -> is_recursive defs s = true -> l = [].
+Proof. intros HR HLL Hrec. exact (rw_bv_merge_bw_skips_recursive_proof _ _ _ _ (L s) _ HR HLL Hrec). Qed.
 
 Theorem rw_bv_merge_bw_closed gs defs here e l g :
   wf e = true -> Forall (fun d => wf (d_body d) = true) defs ->
